@@ -242,11 +242,17 @@ func (g *siteGen) selectorSites() {
 			case "method":
 				fn := lr.obj.(*types.Func)
 				forms := []string{"selv", "selp", "mval", "mvalp"}
-				if inMethodSet(T, name, g.pkg) {
+				if td.Kind == KBasic && declaredPtrRecv(fn) {
+					// known finding: a pointer-receiver method called on an addressable variable of a named non-struct type panics
+					forms = []string{"selp", "mvalp"}
+				}
+				// known finding: a method expression is typed after the receiver of the DECLARED method
+				// ((*T).m with value-receiver m gets func(T); T.m with a pointer-receiver m promoted through an embedded pointer gets func(*T))
+				if inMethodSet(T, name, g.pkg) && !declaredPtrRecv(fn) {
 					forms = append(forms, "mexprT") // T.m is valid Go only if m is in the method set of T
 				}
 				if declaredPtrRecv(fn) {
-					forms = append(forms, "mexprP") // known finding: (*T).m with value-receiver m is mistyped func(T)
+					forms = append(forms, "mexprP")
 				}
 				form := forms[r.Intn(len(forms))]
 				var st, val string
@@ -545,7 +551,7 @@ func (g *siteGen) switchSites(n int) {
 				names = append(names, t.expr)
 			}
 			body := fmt.Sprintf("return \"c%d\"", pos)
-			if len(ts) == 1 && ts[0].tag != "" && r.Chance(2, 3) {
+			if len(ts) == 1 && ts[0].tag != "" && r.Chance(2, 3) && ti == 0 { // known finding: a bound variable of a non-empty interface type panics in default / multi-type clauses
 				body = fmt.Sprintf("return fmt.Sprint(\"c%d:\", x.%s)", pos, ts[0].tag)
 				usesX = true
 			}
@@ -928,8 +934,7 @@ func main() {
 		"(named types of identical struct layout: every struct has a unique tag field; (*T).m with value-receiver m). "+
 		"One evaluation = one site (compile + run, compared with go/types accept/reject and the compiled-Go output) or one (type,name) lookup triple compared with go/types.LookupFieldOrMethod; "+
 		"non-trivial = the name is found at depth >= 1 or is ambiguous, or the site is an interface/assertion/switch site; distinct by SHA-256 of hierarchy+site")
-	wd := vh.NewWatchdog(rep, 60*time.Second)
-	rn := &runner{rep: rep, wd: wd, seed: a.Seed}
+	rn := &runner{rep: rep, seed: a.Seed}
 
 	var progs []*Prog
 	// part 0: corpus
@@ -997,10 +1002,15 @@ func main() {
 			os.Exit(2)
 		}
 		g := &siteGen{p: p, h: h, pkg: ck.pkg, r: r, rep: rep}
-		g.selectorSites()
-		g.ifaceSites()
-		g.assertSites(8)
-		g.switchSites(6)
+		if h.anyRecursive() {
+			rep.Dist("hierarchy:recursive(lookups only)")
+		} else {
+			rep.Dist("hierarchy:non-recursive")
+			g.selectorSites()
+			g.ifaceSites()
+			g.assertSites(8)
+			g.switchSites(6)
+		}
 		progs = append(progs, p)
 		checks = append(checks, nil)
 	}
@@ -1034,7 +1044,8 @@ func main() {
 		fmt.Fprintln(os.Stderr, err)
 		os.Exit(2)
 	}
-	// gomacro
+	// gomacro (the watchdog starts only now: the oracle build time depends on the machine load)
+	rn.wd = vh.NewWatchdog(rep, 120*time.Second)
 	cw := vh.NewCases(a, "From Coq Require Import List NArith ZArith Bool.\nFrom Verif Require Import C09.Model.\nImport ListNotations.\nOpen Scope Z_scope.", "case", "mismatches", 6)
 	idx := 0
 	for i, p := range progs {
